@@ -1,6 +1,5 @@
 PROP = dict(
     id="C39",
-    disabled=True,
     engines=["c39"],
     go_tags=["c39"],
     lean_modules=["MM.Props.C39"],
